@@ -67,6 +67,13 @@ func (s *Sim) coverState(ctx *StepCtx) {
 			s.probe("iso.3live.end", 1)
 		}
 	}
+	if pg := s.perioGroups(); ctx.preGroups != nil {
+		for p := range ctx.preGroups {
+			if _, still := pg[p]; !still {
+				s.probe("perio.group.released", 1)
+			}
+		}
+	}
 	for _, r := range ctx.Reqs {
 		if r.Fault {
 			if s.faultHit == nil {
